@@ -120,7 +120,16 @@ func dumpVal2(sb *strings.Builder, v reflect.Value, unwrap bool) {
 				// else { if c { } } is else if c { }: macro expansion unwraps the one-statement block and the printer
 				// can write the if statement after else without braces (any other statement gets its braces back)
 				if b, ok := v.Field(i).Interface().(*ast.BlockStmt); ok && b != nil && len(b.List) == 1 {
-					if inner, ok := b.List[0].(*ast.IfStmt); ok {
+					// else { { if c { } } }: the inner one-statement blocks are unwrapped first
+					only := b.List[0]
+					for {
+						st, triv := trivialBlock(reflect.ValueOf(only))
+						if !triv {
+							break
+						}
+						only = st
+					}
+					if inner, ok := only.(*ast.IfStmt); ok {
 						dumpVal2(sb, reflect.ValueOf(inner), true)
 						sb.WriteString(" ")
 						continue
